@@ -849,7 +849,7 @@ def cigar_cases(rng, n_cases):
         if rng.random() < 0.3:
             cig = rng.choice(CIGAR_BAD)
         else:
-            cig = "".join(f"{rng.choice([1, 1, 2, 3, 10, 12])}{rng.choice('MMMIDN=XSH')}" for _ in range(rng.randint(1, 6)))
+            cig = "".join(f"{rng.choice([1, 1, 2, 3, 10, 12, 100, 200, 255])}{rng.choice('MMMIDN=XSH')}" for _ in range(rng.randint(1, 6)))
         yield {"kind": "cigar_r", "ops": [f"cigar_r {cig if cig else '_'} {rng.choice([0, 0, 1, 7])}"], "cigar": cig}
 
 
@@ -1909,6 +1909,29 @@ def _oracle_cigar_read(case):
                 t2 = type(e).__name__
             if t2 != t:
                 v.append(("C11/cigar/read/bam-op-codes", f"{cig!r} at {w[2]} -> {t}, but as BAM (op code, length) tuples {codes} -> {t2}"))
+            # the same tuples as a compact integer array (what a BAM parser yields), at reference offsets beyond that dtype's range:
+            # positions and row counters must not take the narrow dtype of the op array (NEP 50 scalar promotion)
+            import numpy as np
+            for dt in (np.uint8, np.uint16, np.int8, np.int16, np.uint32, np.int32):
+                if any(c > np.iinfo(dt).max for _, c in codes):
+                    continue
+                arr = np.array(codes, dtype=dt)
+                for pos in (int(w[2]), 250, 300, 40000, 65400, 70000, 2 ** 31 - 5, 2 ** 32 + 7):
+                    try:
+                        want = align.read_alignment_from_cigar(cig, pos, ref, ref).trace.tolist()
+                    except Exception:  # noqa: BLE001
+                        continue
+                    try:
+                        got = align.read_alignment_from_cigar(arr, pos, ref, ref).trace.tolist()
+                    except Exception as e:  # noqa: BLE001
+                        got = "ERR:" + type(e).__name__
+                    if got != want:
+                        v.append((f"C11/cigar/read/narrow-dtype-op-array/{np.dtype(dt).name}",
+                                  f"{cig!r} as {np.dtype(dt).name} (op, length) array at position {pos} -> {str(got)[:120]}, the string gives {str(want)[:120]}"))
+                        break
+                else:
+                    continue
+                break
         if not _is_valid(t, 2) and t:
             v.append(("C11/cigar/read/invalid-trace", f"{cig!r} at {w[2]} -> {t}"))
         elif t and not re.search(r"[SH]", re.sub(r"^(\d+H)?(\d+S)?|(\d+S)?(\d+H)?$", "", cig)) and not (_contig(t, 0) and _contig(t, 1)):
